@@ -1,3 +1,37 @@
-(* C07 - placeholder while the invariant is built *)
-From Tramp Require Import Model.Base Model.Sys.
-Theorem C07_placeholder : True. Proof. exact I. Qed.
+(* C07 — all HTLCs aggregated into one payment receive the same resolution.
+
+   "All HTLCs the plugin is holding for the same payment hash when that payment is decided receive the
+    identical response: the same preimage, or the same failure. If an HTLC of a still-incomplete set
+    triggers a rejection (conflicting invoice or amount, expiry too low, declared total too low), the
+    whole set is failed back together and no outgoing payment is started for it." *)
+From Tramp Require Import Model.Base Model.Fee Model.Classify Model.Node Model.Provider Model.Sys.
+From Tramp Require Import Proofs.SysBasics Proofs.EntryProofs Proofs.SysEntry Proofs.SysShape Proofs.SysTheorems Proofs.SysTimers Proofs.SysReach.
+
+(* in ANY state (reachable or not) and for ANY event: either nobody is answered, or EVERY HTLC held for the hash
+   (the one just arriving included) is answered in this very step with one and the same response, and the entry is gone *)
+Theorem C07_same_resolution : forall c s ev,
+  resps (snd (step c s ev)) = [] \/
+  exists r, resps (snd (step c s ev)) = map (fun h => OResp (hid h) r) (held c s ev) /\ entry_ (pl (fst (step c s ev))) = None.
+Proof. exact step_same_resolution. Qed.
+
+(* a rejection in a still-incomplete set (no ready signal queued, lifecycle has not started to pay) dooms the set ... *)
+Theorem C07_rejection_dooms : forall c s h e,
+  reachable c s -> entry_ (pl s) = Some e -> gate_rejects c e h = true -> rdy_q e = false ->
+  (forall i x, nth_error (lcs (pl s)) i = Some x -> attached (l_pc x) = true -> prepay (l_pc x) = true) ->
+  entry_ (pl (fst (step c s (EvHtlc h)))) = None \/ Doomed (fst (step c s (EvHtlc h))).
+Proof. intros c s h e Hr. destruct (reachable_inv c s Hr) as (HU & HE & _). exact (rejection_dooms c s h e HU HE). Qed.
+
+(* ... and a doomed set is never paid: until its entry is dropped (which answers all of it at once, C07_same_resolution)
+   no step starts an outgoing attempt; the later HTLCs of the set cannot undo this *)
+Theorem C07_doomed_never_paid : forall c s ev,
+  reachable c s -> Doomed s ->
+  (forall cid q, In (OCall cid q) (snd (step c s ev)) -> is_attempt_start q = false) /\
+  (entry_ (pl (fst (step c s ev))) = None \/ Doomed (fst (step c s ev))).
+Proof. intros c s ev Hr Hd. destruct (reachable_inv c s Hr) as (HU & HE & _). exact (doomed_step c s ev HU HE Hd). Qed.
+
+(* the gates are exactly the four rejection causes of the property *)
+Theorem C07_gates : forall c e h,
+  gate_rejects c e h = negb (bytes_eq (blob h) (e_blob e) && (deliver h =? e_deliver e))     (* conflicting invoice or amount *)
+                       || (rel h <? Z.of_N (pol_delta (pol c)))%Z                           (* expiry too low *)
+                       || negb (fee_sufficient (pol c) (total h) (deliver h)).               (* declared total too low *)
+Proof. reflexivity. Qed.
